@@ -105,6 +105,43 @@ func checkC17(c *run.Ctx) {
 				}
 				c.Count("marshal_key_checks", 1)
 			}
+			if i%16 == 8 {
+				// the same source arriving in a document: as a bare string, as a one-key mapping in the list, and as a key
+				// of the legacy plugins mapping; and through the stand-alone decoder of a plugin list
+				qs, _ := json.Marshal(src)
+				docs := []string{
+					`{"steps":[{"command":"c","plugins":[` + string(qs) + `]}]}`,
+					`{"steps":[{"command":"c","plugins":[{` + string(qs) + `:{"k":"v"}}]}]}`,
+					`{"steps":[{"command":"c","plugins":{` + string(qs) + `:{"k":"v"}}}]}`,
+				}
+				for k, text := range docs {
+					pp, err := parseText(text)
+					if err != nil || len(pp.Steps) != 1 {
+						c.Violation(id, map[string]any{"what": fmt.Sprintf("document with plugin source %q (spelling %d) rejected: %v", src, k, err), "document": text})
+						return
+					}
+					cs, ok := pp.Steps[0].(*pipeline.CommandStep)
+					if !ok || len(cs.Plugins) != 1 {
+						c.Violation(id, map[string]any{"what": fmt.Sprintf("document with plugin source %q (spelling %d) did not give a command step with one plugin", src, k), "document": text})
+						return
+					}
+					if fs := cs.Plugins[0].FullSource(); fs != want {
+						c.Violation(id, map[string]any{"what": fmt.Sprintf("plugin source %q parsed from a document (spelling %d) has canonical form %q, rule model (%s) says %q", src, k, fs, form, want), "stored_source": cs.Plugins[0].Source})
+						return
+					}
+					jk, yk, err := c17MarshalKeys(cs.Plugins[0])
+					if err != nil || jk != want || yk != want {
+						c.Violation(id, map[string]any{"what": fmt.Sprintf("plugin source %q parsed from a document (spelling %d) is marshalled as json=%q yaml=%q (err %v), canonical source %q", src, k, jk, yk, err, want)})
+						return
+					}
+				}
+				var pl pipeline.Plugins
+				if err := pl.UnmarshalJSON([]byte(`[{` + string(qs) + `:null}]`)); err != nil || len(pl) != 1 || pl[0].FullSource() != want {
+					c.Violation(id, map[string]any{"what": fmt.Sprintf("Plugins.UnmarshalJSON of source %q: err=%v, canonical form differs from %q", src, err, want)})
+					return
+				}
+				c.Count("sources_checked_through_documents", 1)
+			}
 			if c.WantSample() {
 				c.Sample(map[string]any{"source": src, "form": form, "canonical": got})
 			}
